@@ -104,6 +104,11 @@ var c06Probes = func() []geojson.Object {
 		`{"type":"LineString","coordinates":[[-3,-3],[12,12]]}`, `{"type":"LineString","coordinates":[[0,5],[5,5],[5,0]]}`,
 		`{"type":"MultiPoint","coordinates":[[1,1],[3,3],[20,20]]}`,
 		`{"type":"Polygon","coordinates":[[[-200,-100],[200,-100],[200,100],[-200,100],[-200,-100]]]}`,
+		// collections with an empty member, nested and wrapped: "every child" rules and box shortcuts disagree on these
+		`{"type":"GeometryCollection","geometries":[{"type":"Point","coordinates":[2,2]},{"type":"MultiPoint","coordinates":[]}]}`,
+		`{"type":"Feature","geometry":{"type":"GeometryCollection","geometries":[{"type":"LineString","coordinates":[[1,1],[2,2]]},{"type":"GeometryCollection","geometries":[]}]},"properties":{}}`,
+		`{"type":"MultiPolygon","coordinates":[[[[1,1],[2,1],[2,2],[1,2],[1,1]]],[[[3,3],[4,3],[4,4],[3,4],[3,3]]]]}`,
+		`{"type":"GeometryCollection","geometries":[]}`,
 	} {
 		o, err := geojson.Parse(s, nil)
 		if err != nil {
